@@ -11,8 +11,10 @@ Stride == IF "STRIDE" \in DOMAIN IOEnv THEN atoi(IOEnv.STRIDE) ELSE 1
 Offset == IF "OFFSET" \in DOMAIN IOEnv THEN atoi(IOEnv.OFFSET) ELSE 0
 VARIABLES tp, g, k1, k2
 vars == <<tp, g, k1, k2>>
-Toks == IF tp = 0 THEN <<>> ELSE Templates[tp]
+Toks == IF tp <= 0 THEN <<>> ELSE Templates[tp]
 InitEndings == tp = 0 /\ g \in 1..Len(Endings) /\ k1 = 0 /\ k2 = 0
+\* MODE = "created": one state per created ending (tp = -1, g = index)
+InitCreated == tp = -1 /\ g \in 1..Len(CreatedEndings) /\ k1 = 0 /\ k2 = 0
 InitPlacements ==
   /\ tp \in 1..Len(Templates)
   /\ g \in 0..Len(Templates[tp])
@@ -37,7 +39,8 @@ Gaps ==
   ELSE IF Mode = "adjacent" THEN Place(Toks, Place(Toks, base, g, Kinds[k1]), g + 1, Kinds[k2])
   ELSE [base EXCEPT ![Len(Toks)] = EofKinds[k2]]
 \* tspans: byte ranges (1-based, inclusive) of the type regions of the rendered text (empty for the untyped templates)
-Init == IF Mode = "endings" THEN InitEndings ELSE InitPlacements
-Emit == IF tp = 0 THEN PrintT("CASE " \o ToJson([tpl |-> 0, gap |-> g, k1 |-> 0, k2 |-> 0, mode |-> Mode, src |-> Endings[g], tspans |-> <<>>])) ELSE
+Init == IF Mode = "endings" THEN InitEndings ELSE IF Mode = "created" THEN InitCreated ELSE InitPlacements
+Emit == IF tp = -1 THEN PrintT("CASE " \o ToJson([tpl |-> -1, gap |-> g, k1 |-> 0, k2 |-> 0, mode |-> Mode, pre |-> CreatedEndings[g][1], src |-> CreatedEndings[g][2], tspans |-> <<>>])) ELSE
+        IF tp = 0 THEN PrintT("CASE " \o ToJson([tpl |-> 0, gap |-> g, k1 |-> 0, k2 |-> 0, mode |-> Mode, src |-> Endings[g], tspans |-> <<>>])) ELSE
         PrintT("CASE " \o ToJson([tpl |-> tp, gap |-> g, k1 |-> k1, k2 |-> k2, mode |-> Mode, src |-> Text, tspans |-> ByteSpans(tp, Toks, Gaps)]))
 =============================================================================
